@@ -273,7 +273,7 @@ func runBatch(r *kit.Run, progs []plProg, runs string, timeoutMs, memMB int) map
 
 func checkC02(r *kit.Run) {
 	r.Assumptions = []string{
-		"inputs: programs a/b/c over the 103-expression pool of Pipeline.tla (every hand-picked cyclic / erroneous program plus a seeded sample; all triples are out of reach: 10^6), byte-level mutants of four seed programs (operation x position x inserted text), and token soups of CueTokens.tla up to 2 (thorough 3) tokens",
+		"inputs: programs a/b/c over the 114-expression pool of Pipeline.tla (every hand-picked cyclic / erroneous program plus a seeded sample; all triples are out of reach: 10^6), byte-level mutants of four seed programs (operation x position x inserted text), and token soups of CueTokens.tla up to 2 (thorough 3) tokens",
 		"each input runs in isolated worker processes with a ceiling of 10 s and 2 GB; three runs: context used for other programs before, fresh context, another process; outputs are compared by digest of the printed CUE / JSON / YAML / error text",
 		"the CLI (cmd/cue) is not in the loop here: process isolation is provided by the worker; cue export through the binary is exercised by C12 and C07",
 	}
@@ -301,7 +301,7 @@ func checkC02(r *kit.Run) {
 	if err != nil || ares.TimedOut || !ares.OK() {
 		r.Fatal("Pipeline automaton: %v %s\n%s", err, ares.Violation, ares.Tail(20))
 	}
-	r.AddTLC("Pipeline automaton (TypeOK, Repeatable, ParseErrorEnds, DataExportsAgree, Terminates)", ares)
+	r.AddTLC("Pipeline automaton (TypeOK, Repeatable, ParseErrorEnds, ErrorValueNotExported, Terminates)", ares)
 	ares.Cleanup()
 
 	var progs []plProg
